@@ -132,8 +132,28 @@ def gen_case(rng, tier, index):
     case["attr_seed"] = rng.randrange(1 << 30)
     case["invalid"] = rng.choice([None, None, None, "foreign", "noreferent",
                                   "twice"])
+    if ret and case["invalid"] is None and rng.random() < 0.3:
+        # second context: B (the new name of the first retarget) goes on to C
+        a0, b0 = ret[0]
+        cs = [x for x in (externs_b if b0 in ind_used or any(
+                          p[0] in ind_used for p in ret if p[1] == b0)
+                          else labels_code + externs_b)
+              if x not in (a0, b0) and not any(p[0] == x for p in ret)]
+        xs = [b for b in g.code_blocks if len(b["items"]) >= 2 and
+              b["items"][-1].get("t") == a0 and vocab.VOCAB[case["isa"]][
+                  b["items"][-1]["k"]]["kind"] in ("jmp", "jcc", "call")]
+        if cs and xs and not any(p[0] == b0 for p in ret):
+            blk = rng.choice(xs)
+            case["second"] = {
+                "retarget": [b0, rng.choice(cs)],
+                "edit": {"op": "del", "b": blk["id"], "i": 0, "n": 1,
+                         "proxy": False}}
     r = rng.random()
-    if r < 0.25 and g.code_blocks:
+    if case.get("second"):
+        # (the first context leaves the blocks alone, so that the second
+        # one can still name them)
+        pass
+    elif r < 0.25 and g.code_blocks:
         blk = rng.choice([b for b in g.code_blocks if b["items"]])
         case["edits"] = [{"op": "ins", "b": blk["id"], "i": 0,
                           "p": {"lines": [{"k": "mark",
@@ -292,118 +312,159 @@ def run_case(case):
             type(exc), exc, exc.__traceback__))[-1500:]
         viol.append({"key": "retarget:" + key, "msg": msg})
         return {"sig": None, "violations": viol, "counters": ctr}
-    # ---- expected listing: A renamed to B everywhere it is an operand
-    lst = rewrite.expected(case)
-    for si, ii, t in lst.all_tokens():
-        if t.t in "ID" and t.target in ren and t.patch is None:
-            t.orig_target = t.target
-            t.target = ren[t.target]
-    lst.layout()
-    ob = irview.observe(bu, isa)
-    kinds = set()
-    by_name = {}
-    for s in m.symbols:
-        by_name.setdefault(s.name, []).append(s)
-    for si, ivs in enumerate(lst.secs):
-        for ii, toks in enumerate(ivs):
-            bi = bu.intervals[si][ii]
-            for t in toks:
-                if t.t not in "ID" or t.target is None or t.patch is not None:
-                    continue
-                e = bi.symbolic_expressions.get(t.ivpos + t.sym[0])
-                was = getattr(t, "orig_target", None)
-                acc = access_of(t)
-                if e is None:
-                    viol.append({"key": "retarget:expression-lost",
-                                 "msg": f"{t.key}"})
-                    continue
-                want_sym = bu.symbols[t.target]
-                attrs_in = tok_attrs[t.uid]
-                if was is not None:
-                    ctr["retargeted_uses_compared"] += 1
-                    kinds.add(acc)
-                    want_attrs = convert(isa, fmt, pie, acc, attrs_in,
-                                         was not in externs,
-                                         t.target not in externs)
-                    tag = "retargeted"
-                else:
-                    ctr["untouched_uses_compared"] += 1
-                    want_attrs = attrs_in
-                    tag = "untouched"
-                if e.symbol is not want_sym:
-                    viol.append({
-                        "key": f"retarget:{tag}-use-wrong-symbol:{acc}",
-                        "msg": f"{t.key}: {e.symbol.name} != {t.target}"})
-                if e.offset != t.addend:
-                    viol.append({"key": f"retarget:{tag}-use-addend:{acc}",
-                                 "msg": f"{e.offset} != {t.addend}"})
-                got_attrs = frozenset(a.name for a in e.attributes)
-                if got_attrs != want_attrs:
-                    viol.append({
-                        "key": f"retarget:{tag}-use-attributes:{acc}:"
-                               f"{'int' if (was or t.target) not in externs else 'ext'}"
-                               f"-to-{'int' if t.target not in externs else 'ext'}",
-                        "msg": f"{t.key} {sorted(attrs_in)} -> "
-                               f"{sorted(got_attrs)} expected "
-                               f"{sorted(want_attrs)}"})
-    # CFI directives
-    cfi = m.aux_data["cfiDirectives"].data
-    for key, idx, d, symname in cfi_in:
-        ds = cfi.get(key)
-        want = ren.get(symname, symname)
-        ctr["retargeted_uses_compared" if symname in ren
-            else "untouched_uses_compared"] += 1
-        if symname in ren:
-            kinds.add("cfi")
-        if ds is None or idx >= len(ds) or case["edits"]:
-            # the block may have been split by the insertion at offset 0, or
-            # deleted (its directives move on): look for the directive
-            # anywhere
-            every = [x for dl in cfi.values() for x in dl
-                     if x[0] == d and isinstance(x[2], gtirb.Symbol)]
-            blk_deleted = any(
-                e["op"] == "del" and e["i"] == 0 and
-                e["n"] == len(lst0.block_info[e["b"]]["blk"]["items"]) and
-                lab in lst0.block_info[e["b"]]["blk"]["labels"]
-                for e in case["edits"]
-                for lab in [key_label[id(key)]])
-            if not any(x[2].name == want for x in every) and \
-                    not blk_deleted:
-                viol.append({"key": "retarget:cfi-directive-lost",
-                             "msg": d})
-            want_all = sorted(ren.get(s2, s2)
-                              for _, _, d2, s2 in cfi_in if d2 == d)
-            got_all = sorted(x[2].name for x in every)
-            if got_all != want_all and not blk_deleted and not any(
-                    e["op"] == "del" and e["i"] == 0 and e["n"] == len(
-                        lst0.block_info[e["b"]]["blk"]["items"])
-                    for e in case["edits"]):
+    def verify(case, chain, tag_sfx):
+        """compare the module with the listing edited by case['edits'] in
+        which every operand name went through the renamings of `chain`"""
+        def final(name):
+            for r in chain:
+                name = r.get(name, name)
+            return name
+        ren = {n: final(n) for r in chain for n in r if final(n) != n}
+        # ---- expected listing: A renamed to B everywhere it is an operand
+        lst = rewrite.expected(case)
+        for si, ii, t in lst.all_tokens():
+            if t.t in "ID" and t.target in ren and t.patch is None:
+                t.orig_target = t.target
+                t.target = ren[t.target]
+        lst.layout()
+        ob = irview.observe(bu, isa)
+        kinds = set()
+        by_name = {}
+        for s in m.symbols:
+            by_name.setdefault(s.name, []).append(s)
+        for si, ivs in enumerate(lst.secs):
+            for ii, toks in enumerate(ivs):
+                bi = bu.intervals[si][ii]
+                for t in toks:
+                    if t.t not in "ID" or t.target is None or t.patch is not None:
+                        continue
+                    e = bi.symbolic_expressions.get(t.ivpos + t.sym[0])
+                    was = getattr(t, "orig_target", None)
+                    acc = access_of(t)
+                    if e is None:
+                        viol.append({"key": "retarget:expression-lost",
+                                     "msg": f"{t.key}"})
+                        continue
+                    want_sym = bu.symbols[t.target]
+                    attrs_in = tok_attrs[t.uid]
+                    if was is not None:
+                        ctr["retargeted_uses_compared"] += 1
+                        kinds.add(acc)
+                        cur, want_attrs = was, attrs_in
+                        for r in chain:
+                            nxt = r.get(cur, cur)
+                            if nxt != cur:
+                                want_attrs = convert(
+                                    isa, fmt, pie, acc, want_attrs,
+                                    cur not in externs, nxt not in externs)
+                                cur = nxt
+                        tag = "retargeted"
+                    else:
+                        ctr["untouched_uses_compared"] += 1
+                        want_attrs = attrs_in
+                        tag = "untouched"
+                    if e.symbol is not want_sym:
+                        viol.append({
+                            "key": f"retarget:{tag}-use-wrong-symbol:{acc}",
+                            "msg": f"{t.key}: {e.symbol.name} != {t.target}"})
+                    if e.offset != t.addend:
+                        viol.append({"key": f"retarget:{tag}-use-addend:{acc}",
+                                     "msg": f"{e.offset} != {t.addend}"})
+                    got_attrs = frozenset(a.name for a in e.attributes)
+                    if got_attrs != want_attrs:
+                        viol.append({
+                            "key": f"retarget:{tag}-use-attributes:{acc}:"
+                                   f"{'int' if (was or t.target) not in externs else 'ext'}"
+                                   f"-to-{'int' if t.target not in externs else 'ext'}",
+                            "msg": f"{t.key} {sorted(attrs_in)} -> "
+                                   f"{sorted(got_attrs)} expected "
+                                   f"{sorted(want_attrs)}"})
+        # CFI directives
+        cfi = m.aux_data["cfiDirectives"].data
+        for key, idx, d, symname in cfi_in:
+            ds = cfi.get(key)
+            want = ren.get(symname, symname)
+            ctr["retargeted_uses_compared" if symname in ren
+                else "untouched_uses_compared"] += 1
+            if symname in ren:
+                kinds.add("cfi")
+            if ds is None or idx >= len(ds) or case["edits"]:
+                # the block may have been split by the insertion at offset 0, or
+                # deleted (its directives move on): look for the directive
+                # anywhere
+                every = [x for dl in cfi.values() for x in dl
+                         if x[0] == d and isinstance(x[2], gtirb.Symbol)]
+                blk_deleted = any(
+                    e["op"] == "del" and e["i"] == 0 and
+                    e["n"] == len(lst0.block_info[e["b"]]["blk"]["items"]) and
+                    lab in lst0.block_info[e["b"]]["blk"]["labels"]
+                    for e in case["edits"]
+                    for lab in [key_label[id(key)]])
+                if not any(x[2].name == want for x in every) and \
+                        not blk_deleted:
+                    viol.append({"key": "retarget:cfi-directive-lost",
+                                 "msg": d})
+                want_all = sorted(ren.get(s2, s2)
+                                  for _, _, d2, s2 in cfi_in if d2 == d)
+                got_all = sorted(x[2].name for x in every)
+                if got_all != want_all and not blk_deleted and not any(
+                        e["op"] == "del" and e["i"] == 0 and e["n"] == len(
+                            lst0.block_info[e["b"]]["blk"]["items"])
+                        for e in case["edits"]):
+                    viol.append({"key": "retarget:cfi-directive-symbol",
+                                 "msg": f"{d}: {got_all} != {want_all}"})
+                continue
+            if ds[idx][2] is not bu.symbols[want] or ds[idx][1] != [0x1b]:
                 viol.append({"key": "retarget:cfi-directive-symbol",
-                             "msg": f"{d}: {got_all} != {want_all}"})
-            continue
-        if ds[idx][2] is not bu.symbols[want] or ds[idx][1] != [0x1b]:
-            viol.append({"key": "retarget:cfi-directive-symbol",
-                         "msg": f"{d}: {getattr(ds[idx][2], 'name', ds[idx][2])}"
-                                f" != {want}"})
-    # symbolForwarding
-    fwd = m.aux_data["symbolForwarding"].data
-    got_fwd = {k.name: v.name for k, v in fwd.items()}
-    want_fwd = {k: ren.get(v, v) for k, v in fwd_in.items()}
-    for k in fwd_in:
-        ctr["retargeted_uses_compared" if fwd_in[k] in ren
-            else "untouched_uses_compared"] += 1
-        if fwd_in[k] in ren:
-            kinds.add("fwd")
-    if got_fwd != want_fwd:
-        viol.append({"key": "retarget:symbol-forwarding-differs",
-                     "msg": f"{got_fwd} != {want_fwd}"})
-    # CFG
-    v, c = oracles.check_cfg(rewrite.Run.__new__(rewrite.Run), lst, ob) \
-        if False else cfg_check(case, bu, lst, ob)
-    for x in v:
-        x["key"] = "retarget:" + x["key"]
-    viol += v
-    ctr["edges_compared"] += c.get("edges_compared", 0)
+                             "msg": f"{d}: {getattr(ds[idx][2], 'name', ds[idx][2])}"
+                                    f" != {want}"})
+        # symbolForwarding
+        fwd = m.aux_data["symbolForwarding"].data
+        got_fwd = {k.name: v.name for k, v in fwd.items()}
+        want_fwd = {k: ren.get(v, v) for k, v in fwd_in.items()}
+        for k in fwd_in:
+            ctr["retargeted_uses_compared" if fwd_in[k] in ren
+                else "untouched_uses_compared"] += 1
+            if fwd_in[k] in ren:
+                kinds.add("fwd")
+        if got_fwd != want_fwd:
+            viol.append({"key": "retarget:symbol-forwarding-differs",
+                         "msg": f"{got_fwd} != {want_fwd}"})
+        # CFG
+        v, c = oracles.check_cfg(rewrite.Run.__new__(rewrite.Run), lst, ob) \
+            if False else cfg_check(case, bu, lst, ob)
+        for x in v:
+            x["key"] = "retarget:" + x["key"]
+        viol.extend(v)
+        ctr["edges_compared"] += c.get("edges_compared", 0)
+        return kinds
+
+    kinds = verify(case, [ren], "")
+    sec = case.get("second")
+    if sec and not viol and not inv:
+        # a second context over the rewritten module: an instruction in front
+        # of a control-flow use is deleted and the new name is redirected
+        # once more (whatever the first context left in caches keyed by
+        # blocks or symbols is stale now)
+        n0 = len(viol)
+        ctx2 = RewritingContext(m, gtirb_functions.Function.build_functions(m))
+        case2 = dict(case, edits=[sec["edit"]])
+        rewrite.register_edits(case2, bu, ctx2, rec,
+                               gtirb_functions.Function.build_functions(m))
+        ren2 = {sec["retarget"][0]: sec["retarget"][1]}
+        ctx2.retarget_symbol_uses(bu.symbols[sec["retarget"][0]],
+                                  bu.symbols[sec["retarget"][1]])
+        try:
+            ctx2.apply()
+        except Exception as x:  # noqa
+            viol.append({"key": "retarget:second-context-raises:" +
+                                type(x).__name__, "msg": repr(x)[:300]})
+        else:
+            ctr["second_contexts"] = 1
+            verify(dict(case, edits=case["edits"] + [sec["edit"]]),
+                   [ren, ren2], "")
+            for x in viol[n0:]:
+                x["msg"] = "(after the second context) " + x["msg"]
 
     def kind(n):
         return "ext" if n in externs else (
